@@ -6,6 +6,7 @@ import (
 	"fmt"
 	"runtime"
 	"sync"
+	"sync/atomic"
 
 	gots "github.com/Comcast/gots/v2"
 	"github.com/Comcast/gots/v2/packet"
@@ -81,6 +82,8 @@ func check(c *mon.Ctx, s []byte, class string) {
 	}
 }
 
+var coldDone bool
+
 func run(c *mon.Ctx) {
 	if !ref.CRCSelfTest() {
 		panic("reference CRC self-test failed")
@@ -88,6 +91,31 @@ func run(c *mon.Ctx) {
 	c.Rule("inputs: all strings of length 0..2; every single-bit string up to the tier's length; PRNG strings up to 1024 bytes; sections emitted by the library. distinct non-trivial = distinct (generator, length, bit-position / content class) with a non-empty input")
 	c.Assume("reference: bitwise CRC-32/MPEG-2 (poly 0x04C11DB7, init 0xFFFFFFFF, no reflection, no xorout), self-tested against CRC(\"123456789\") = 0x0376E6E7 at start-up")
 
+	// ---- the very first checksums of a fresh process are asked for by eight goroutines at once (whatever the
+	// function builds on first use is built under contention); every worker process does this once, first
+	c.StreamSeedless("cold-start-concurrent", 16, func(k int, r *gen.Rand) {
+		if coldDone {
+			c.Class("cold-start/later-in-the-process")
+			return
+		}
+		coldDone = true
+		c.Count("cold_start.first_calls_in_process")
+		c.ConcurrentReaders("first checksums of the process", 1, r, func(q *gen.Rand) func() string {
+			ins := make([][]byte, 16)
+			for j := range ins {
+				ins[j] = q.Bytes(q.PickInt([]int{4, 16, 188, 300, 600, 1024, 1 + q.Intn(60)}))
+			}
+			var next int32
+			return func() string {
+				in := ins[int(atomic.AddInt32(&next, 1))%len(ins)]
+				if got, want := gots.ComputeCRC(in), ref.BE32(ref.CRC32MPEG2(in)); !bytes.Equal(got, want) {
+					return fmt.Sprintf("ComputeCRC of a %d-byte string returned %x, CRC-32/MPEG-2 is %x", len(in), got, want)
+				}
+				return ""
+			}
+		})
+	})
+	c.Floor("cold_start.first_calls_in_process", 5)
 	c.Exhaustive("all byte strings of length 0..2", 1+256+65536)
 	c.StreamSeedless("len0-2", 257, func(i int, r *gen.Rand) {
 		if i == 256 {
@@ -371,15 +399,35 @@ func run(c *mon.Ctx) {
 	})
 	c.Floor("emitted_scte35.second_encoding_after_handle_edit", 500)
 	c.Floor("emitted_pmt.multi_packet", 500)
+	c.Floor("emitted_pmt.near_maximal_section", 50)
 	c.Floor("emitted_pmt.input_with_reserved_bits_cleared", 500)
 	c.Stream("emitted-pmt-multi-packet", c.N(2000, 400000), func(i int, r *gen.Rand) {
 		// reference-built PMTs of up to 1021 bytes, split over several packets, filtered to a subset
 		p := ref.GenPMT(r, 1+r.Intn(50))
+		nearMax := i%10 == 7 && len(p.Section()) < 1024-47
+		if nearMax {
+			// a section at the 1021-byte limit behind a pointer_field, and nearly all of it is kept
+			for len(p.Section()) < 1024-47 {
+				p.Streams = append(p.Streams, ref.ES{Type: 0x1b, PID: 0x1000 + len(p.Streams), Descs: []ref.Desc{{Tag: 0x81, Body: r.Bytes(30)}}})
+			}
+			p.Streams = append(p.Streams, ref.ES{Type: 0x1b, PID: 0x1000 + len(p.Streams), Descs: []ref.Desc{{Tag: 0x81}}})
+			if room := 1024 - len(p.Section()); room > 0 {
+				last := &p.Streams[len(p.Streams)-1]
+				last.Descs[0].Body = r.Bytes(room)
+			}
+			if len(p.Section()) == 1024 {
+				c.Count("emitted_pmt.near_maximal_section")
+			}
+		}
 		sec := p.Section()
 		if r.Chance(3) && ref.ClearReservedPMT(sec, r) > 0 {
 			c.Count("emitted_pmt.input_with_reserved_bits_cleared")
 		}
-		pay := append(ref.PointerPrefix(r.PickInt([]int{0, 0, 1, 3, 40, r.Intn(150)})), sec...)
+		ptr := r.PickInt([]int{0, 0, 1, 3, 40, r.Intn(150)})
+		if nearMax {
+			ptr = r.PickInt([]int{1, 2, 30, 100, 182, 0})
+		}
+		pay := append(ref.PointerPrefix(ptr), sec...)
 		const pmtPID = 0x30
 		pk, _ := ref.Packetise(pmtPID, r.Intn(16), pay, ref.RandChunks(r, 1+len(pay)/60), r.Bool())
 		var in []*packet.Packet
@@ -389,8 +437,15 @@ func run(c *mon.Ctx) {
 		}
 		seen := map[int]bool{}
 		var keep []int
+		dropped := false
 		for _, st := range p.Streams {
-			if !seen[st.PID] && st.PID != pmtPID && r.Intn(3) == 0 {
+			switch {
+			case seen[st.PID] || st.PID == pmtPID:
+			case nearMax && (dropped || !r.Chance(8)):
+				keep = append(keep, st.PID) // all but (at most) one stream
+			case nearMax:
+				dropped = true
+			case r.Intn(3) == 0:
 				keep = append(keep, st.PID)
 			}
 			seen[st.PID] = true
